@@ -56,6 +56,10 @@ func isLogCall(e ast.Expr) bool {
 	if !ok {
 		return false
 	}
+	// schedule points of the verification hooks are no-ops in the default build
+	if id, ok := c.Fun.(*ast.Ident); ok && id.Name == "verifPoint" {
+		return true
+	}
 	s, ok := c.Fun.(*ast.SelectorExpr)
 	if !ok {
 		return false
